@@ -46,8 +46,10 @@ class HDF5OutputGroup(OutputGroup):
     def write_string_array(self, string_name, string_array, metadata=None):
 
         asciiList = [n.encode("ascii", "ignore") for n in string_array]
+        width = max([64] + [len(n) for n in asciiList])
         ds = self._entry.create_dataset(
-            str(string_name), (len(asciiList), 1), 'S64', asciiList)
+            str(string_name), (len(asciiList), 1), 'S{}'.format(width),
+            asciiList)
 
         if metadata:
             for k, v in metadata.items():
